@@ -21,6 +21,6 @@ Deliver, all inside {wt}:
  1. the source change itself (leave it applied in the working tree, uncommitted);
  2. {wt}/patch.diff produced by `git -C {wt} diff -- pytoniq_core > {wt}/patch.diff`;
  3. {wt}/demo.py : a small standalone program (run as `cd {wt} && /venv/bin/python demo.py`) that exits 0 and prints PASS on the ORIGINAL code and exits 1 printing FAIL on the changed code, demonstrating the property violation through the public API;
- 4. verify yourself: with the change applied the 51 tests pass and demo.py fails; after `git -C {wt} stash` the demo passes; then `git -C {wt} stash pop` to leave the change applied.
+ 4. verify yourself: with the change applied the 51 tests pass and demo.py fails; after `git -C {wt} apply -R patch.diff` the demo passes; then `git -C {wt} apply patch.diff` to leave the change applied (do NOT use git stash: the stash is shared with other worktrees of the same repository).
  
 In your final answer give: the changed file(s) and lines, a 2-3 sentence explanation of what breaks and exactly what is needed to trigger it, and the outputs of the test run and both demo runs.""")
